@@ -266,7 +266,7 @@ def execute(case, tape):
 
 
 RUN_TIMEOUT_S = 300
-BUDGET = {"quick": (336, 80), "thorough": (8400, 1200)}
+BUDGET = {"quick": (672, 90), "thorough": (12600, 1500)}
 REAL = c22.REAL[:10] + ["ResilientAgent.setup_repair/repair_run/_on_repair_computation_finished",
                         "AgentsMgt._orchestrator_scenario_event/_agents_removal/_on_repair_done",
                         "pydcop.reparation (removal info, repair constraints)", "UCSReplication",
